@@ -408,10 +408,12 @@ pub struct CaseResult {
     pub violations: Vec<(String, String, usize)>, // (key, what, op index)
     pub hist: BTreeMap<String, u64>,
     pub instants: BTreeSet<String>,
+    /// things worth telling that are not violations of the property text
+    pub observations: BTreeMap<String, u64>,
 }
 
 pub fn run_case(c: &Case) -> CaseResult {
-    let mut res = CaseResult { coq: None, steps: 0, ok_steps: 0, violations: vec![], hist: BTreeMap::new(), instants: BTreeSet::new() };
+    let mut res = CaseResult { coq: None, steps: 0, ok_steps: 0, violations: vec![], hist: BTreeMap::new(), instants: BTreeSet::new(), observations: BTreeMap::new() };
     let mut cfg = SaleCfg::basic(c.variant);
     cfg.num_tokens = c.num_tokens;
     cfg.pal = c.pal;
@@ -561,7 +563,6 @@ pub fn run_case(c: &Case) -> CaseResult {
                     | Op::RemoveDiscountPrice { who } => (who.clone(), vec![]),
                     _ => continue,
                 };
-                // the membership question is asked before the step (the step may change the answer's context)
                 (w.run(o), who, funds)
             }
         };
@@ -660,7 +661,9 @@ pub fn run_case(c: &Case) -> CaseResult {
                 if active {
                     if let Some((p, d)) = &pre.wl_price {
                         let other = if d == NATIVE { IBC } else { NATIVE };
-                        if delta(&who, d) != *p as i128 || delta(&who, other) != 0 {
+                        // the seller buying from itself gets the proceeds back: look at the funds it attached instead
+                        let charged_ok = if who == CREATOR { exact(&(*p, d.clone())) } else { delta(&who, d) == *p as i128 && delta(&who, other) == 0 };
+                        if !charged_ok {
                             res.violations.push((
                                 "C04:whitelist-mint-not-charged-whitelist-price".into(),
                                 format!("{}: {:?} at {} under an active whitelist (price {} {}) cost the buyer {} {} / {} {}", vname, cop, pre.now, p, d, delta(&who, d), d, delta(&who, other), other),
@@ -683,7 +686,8 @@ pub fn run_case(c: &Case) -> CaseResult {
                     }
                 } else {
                     let (p, d) = &pre.public_price;
-                    if delta(&who, d) != *p as i128 {
+                    let charged_ok = if who == CREATOR { exact(&(*p, d.clone())) } else { delta(&who, d) == *p as i128 };
+                    if !charged_ok {
                         res.violations.push((
                             "C04:public-mint-not-charged-public-price".into(),
                             format!("{}: {:?} at {} under the public rules (price {} {}) cost the buyer {}", vname, cop, pre.now, p, d, delta(&who, d)),
@@ -715,11 +719,10 @@ pub fn run_case(c: &Case) -> CaseResult {
                             Some(l) => *stage_ok.get(&(i.addr.to_string(), s)).unwrap_or(&0) < l as u64,
                         };
                         if exact(p) && first && total_wl == 0 && room {
-                            res.violations.push((
-                                "C04:member-mint-rejected-while-whitelist-active".into(),
-                                format!("{}: {:?} failed at {}: whitelist active, sender is a member of the active stage, exact whitelist price {}, first whitelist mint: {:?}", vname, cop, pre.now, p.0, out.err),
-                                oi,
-                            ));
+                            // not a clause of the property (it only says "succeeds only if"): recorded as an observation
+                            let why = out.err.clone().unwrap_or_default();
+                            let why = why.rsplit(": ").next().unwrap_or("").chars().take(140).collect::<String>();
+                            *res.observations.entry(format!("entitled member offering the exact whitelist price rejected while the whitelist is active: {} x {} whitelist ({})", vname, i.spec.kind.name(), why)).or_insert(0) += 1;
                         }
                     }
                 }
@@ -988,9 +991,13 @@ fn set_whitelist_cases(variant: usize, kind: Kind) -> Vec<Case> {
         let merkle = VARIANTS[variant].merkle && kind.merkle();
         for (who, p) in [(M1, 60u128), (M2, 70), (M2, 75), (M2, 80), (NM, PUB)] {
             if merkle && who != NM {
-                for slot in [0usize, 1, 2] {
-                    o.push(COp::MintP { who: who.into(), funds: native(p), slot, tree: if p == 75 { 1 } else { 0 }, proof_for: Some(who.into()) });
-                }
+                // the proof that belongs to the whitelist the price belongs to
+                let slot = match p {
+                    60 => 0usize,
+                    80 => 2,
+                    _ => 1,
+                };
+                o.push(COp::MintP { who: who.into(), funds: native(p), slot, tree: if p == 75 { 1 } else { 0 }, proof_for: Some(who.into()) });
             } else {
                 o.push(mint(who, p));
             }
@@ -1009,9 +1016,12 @@ fn set_whitelist_cases(variant: usize, kind: Kind) -> Vec<Case> {
         add(format!("start{:+}ns", d), {
             let mut o = vec![at(t), attach(STRANGER, 2), attach(CREATOR, 2)];
             o.extend(probe(t));
-            for t2 in [T(3500, -1), T(3500, 0), T(4000, -1), T(4000, 0), T(4000, 1)] {
-                o.push(at(t2));
-                o.extend(probe(t2));
+            if d < 0 {
+                // attached: it opens after the public start and closes the public sale to non-members
+                for t2 in [T(3500, -1), T(3500, 0), T(4000, -1), T(4000, 0)] {
+                    o.push(at(t2));
+                    o.extend(probe(t2));
+                }
             }
             o
         });
@@ -1170,7 +1180,7 @@ fn corpus(thorough: bool, rng: &mut Rng) -> Vec<Case> {
                     // quick tier: every (variant, kind, shape) keeps the start boundary and the
                     // boundaries around it; the rest are sampled
                     for c in cs {
-                        let keep = c.label.ends_with(&format!("{:?}", T(START, 0))) || rng.chance(3, 5);
+                        let keep = c.label.ends_with(&format!("{:?}", T(START, 0))) || rng.chance(2, 5);
                         if keep {
                             v.push(c);
                         }
@@ -1223,6 +1233,8 @@ pub fn run(a: &Args) {
     let mut coq_cases = vec![];
     let mut nviol = 0;
     let mut instants: BTreeSet<String> = BTreeSet::new();
+    let mut observations: BTreeMap<String, u64> = BTreeMap::new();
+    let mut classes: BTreeMap<String, (u64, u64)> = BTreeMap::new();
     for (i, c) in cases.iter().enumerate() {
         let r = run_case(c);
         rep.evaluations += r.steps;
@@ -1232,7 +1244,13 @@ pub fn run(a: &Args) {
         for s in &r.instants {
             instants.insert(format!("{}:{}", c.variant, s));
         }
+        for (k, n) in &r.observations {
+            *observations.entry(k.clone()).or_insert(0) += n;
+        }
         rep.distinct_nontrivial += r.ok_steps;
+        let cl = classes.entry(c.label.split(':').next().unwrap_or("").to_string()).or_insert((0u64, 0u64));
+        cl.0 += 1;
+        cl.1 += r.steps;
         let mut seen = BTreeSet::new();
         for (key, what, oi) in r.violations.iter() {
             if !seen.insert(key.clone()) {
@@ -1263,6 +1281,10 @@ pub fn run(a: &Args) {
     }
     rep.rule = "histories on each of the six vending minters x its compatible whitelist kinds (plain minters x {plain, tiered}; flex x {flex, tiered-flex}; merkle x {plain, tiered, merkle, tiered-merkle}; and no whitelist): per boundary instant of the schedule (minter start; whitelist start/end; every stage edge of 2- and 3-stage tiered whitelists, touching / separated / overlapping the public start) one history that runs the same block of buyers (member, member of another stage, non-member; own proof / someone else's proof / no proof) at t-1ns, t, t+1ns; UpdateStartTime (later, earlier-but-not-past, past, at start-1ns / start / start+1ns, non-admin) and SetWhitelist (at start-1ns / start / start+1ns, around the old and the new whitelist's activity edges, double replacement, non-admin) histories; structured random interleavings; a malformed-argument stream. evaluations = minter steps executed on the real contracts; distinct_nontrivial = steps that succeeded (state-changing)".into();
     rep.notes.push(format!("{} histories; {} distinct (variant, op kind, clock offset) triples visited", cases.len(), instants.len()));
+    rep.notes.push(format!("histories/steps per class: {:?}", classes));
+    for (k, n) in &observations {
+        rep.notes.push(format!("observation ({} times): {}", n, k));
+    }
     out.write_cases("C04", "From LP Require Import Num Pay Sg1 Bank MinterVending SaleCorr C04Corr.", "c04_case", "c04_check", &coq_cases, 6, &mut rep);
     out.finish(&rep);
     println!("C04 harness: {} cases, {} steps, {} monitor violations", cases.len(), rep.evaluations, nviol);
